@@ -105,4 +105,12 @@ def target_adjust_offset():
 
 
 def targets():
-    return [target_reconstruct(), target_offset(), target_adjust_offset()]
+    from . import purity
+    pure = purity.target([
+        (WGT, ["_generate_weights", "_generate_window_options"], ()),
+        (OFF, ["_offset_residual", "_calculate_modulus_offset", "_adjust_offset", "_adjust_modulus_offset"], ()),
+        (REC, ["_reconstruct", "_reconstruct_modulus_data"], ()),
+        ("analysis/zhit/smoothing/__init__", ["_smooth_phase", "_generate_smoothing_options"], ()),
+        ("analysis/zhit/interpolation", ["_interpolate_phase", "_generate_interpolation_options"], ()),
+    ], title="stage functions are pure (no module-level state)")
+    return [target_reconstruct(), target_offset(), target_adjust_offset(), pure]
